@@ -569,14 +569,21 @@ class IH5Group(IH5InnerNode):
         if nodes[-1]._gpath == path:
             raise ValueError("Cannot create group, it already exists!")
 
-        # remove "deleted" marker, if set at current path in current patch container
-        if path in self._files[-1] and _node_is_del_mark(self._files[-1][path]):
-            del self._files[-1][path]
+        # first path segment that does not exist yet (possibly it was deleted)
+        pref = nodes[-1]._gpath.rstrip("/")
+        first_new = f"{pref}/{path[len(pref) :].strip('/').split('/')[0]}"
+        # remove "deleted" marker, if set there in current patch container
+        if first_new in self._files[-1] and _node_is_del_mark(
+            self._files[-1][first_new]
+        ):
+            del self._files[-1][first_new]
         # create group (or fail if something else exists there already)
         self._files[-1].create_group(path)
         # if this is a patch: mark as non-virtual, i.e. "overwrite" with empty group
         # because the intent here is to "create", not update something.
+        # The first new group must also hide whatever older containers have there.
         if len(self._files) > 1:
+            self._files[-1][first_new].attrs[SUBST_KEY] = h5py.Empty(None)
             self._files[-1][path].attrs[SUBST_KEY] = h5py.Empty(None)
 
         return IH5Group(self._record, path, self._last_idx)
